@@ -64,7 +64,8 @@ RULE = ('(1) exhaustive: every history of length L (quick 3, thorough 4) over th
 EXHAUSTIVE = {'quick': True, 'thorough': True}
 ASSUMPTIONS = ['names are ASCII identifiers (str.upper on ASCII); association keys on the referential side are spelled as '
                'declared; a class whose attribute names coincide apart from letter case cannot exist: define_class '
-               'rejects it (generated and checked: MetaModelException, nothing defined)',
+               'rejects it (generated and checked: MetaModelException, nothing defined); likewise an attribute name of the '
+               'form __x__ (reserved by python; names with underscores that are not of that form are generated and accepted)',
                'attribute names do not collide with Python-level attributes of xtuml.meta.Class',
                'loaded-from-text family: identifiers the text grammar cannot spell (R<digit>... lexes as a relation id, '
                'reserved words) are not generated; this family is checked by D alone (no model counterpart)']
@@ -154,6 +155,16 @@ SQL_RESERVED = ('CREATE', 'FALSE', 'FROM', 'INDEX', 'INSERT', 'INTO', 'ON', 'PHR
                 'TRUE', 'UNIQUE', 'VALUES')
 
 
+# names python reserves for itself (`__x__`, longer than four characters) cannot be attribute names: define_class refuses
+# them; names with underscores that are not of that form are ordinary names
+RESERVED_NAMES = ['__class__', '__dict__', '__init__', '__x__', '__Name__', '_____', '__getattr__']
+NEAR_RESERVED = ['____', '__a', 'a__', '_x_', '__ab_', '_ab__', '___']
+
+
+def _is_dunder(name):
+    return len(name) >= 5 and name[:2] == '__' and name[-2:] == '__'
+
+
 def _sql_value(v, ty, r):
     T = ty.upper()
     if T == 'STRING':
@@ -211,6 +222,14 @@ def _random_case(r, maxlen, load=False):
         kc = ka + kb + 'C'                                              # rejected: attribute names collide
         ops.append(['define', kc, [['Val', 'integer'], ['vAL', 'string']]])
         ops.append(['find', respell(r, kc)])
+    if not load and r.random() < 0.15:
+        kr = ka + kb + 'R'                                              # rejected: a name python reserves for itself
+        ops.append(['define', kr, [['Val', 'integer'], [r.choice(RESERVED_NAMES), 'string']]])
+        ops.append(['find', respell(r, kr)])
+    if not load and r.random() < 0.15:
+        kn = ka + kb + 'N'                                              # accepted: underscores, but not of the reserved form
+        ops.append(['define', kn, [[nm, 'integer'] for nm in r.sample(NEAR_RESERVED, r.randint(1, 3))]])
+        ops.append(['find', respell(r, kn)])
     if with_assoc and not load:
         ops.append(['assoc', respell(r, kb), ref_name, respell(r, ka), respell(r, a_attrs[0][0])])
     classes = {ka.upper(): (ka, a_attrs, None), kb.upper(): (kb, b_attrs, ref_name)}
@@ -387,7 +406,10 @@ def _class_lookup_random(r):
         k = r.choice(kinds)
         K = k.upper()
         w = r.random()
-        if w < 0.06 and K not in defined:
+        if w < 0.03 and K not in defined:
+            # an attribute name python reserves for itself: rejected, nothing is defined
+            ops.append(['define', respell(r, k), [['n', 'integer'], [r.choice(RESERVED_NAMES), 'string']]])
+        elif w < 0.06 and K not in defined:
             # attribute names that coincide apart from letter case: rejected, nothing is defined
             ops.append(['define', respell(r, k), [['n', 'integer'], [r.choice(['N', 'n']), 'string']] if r.random() < 0.5
                         else [['Ab', 'integer'], ['x', 'string'], ['aB', 'integer']]])
@@ -636,6 +658,7 @@ def run_impl(case):
                 dup = K in orc.classes
                 unames = [a.upper() for a, _ in op[2]]
                 collide = len(set(unames)) < len(unames)      # two attribute names coincide apart from letter case
+                reserved = any(_is_dunder(a) for a, _ in op[2])  # a name of the form __x__
                 try:
                     given = [tuple(a) for a in op[2]]
                     made = m.define_class(op[1], given)
@@ -652,6 +675,9 @@ def run_impl(case):
                     elif collide:
                         fail('colliding-attributes-accepted', 'define_class(%r, %r) accepted attribute names that coincide '
                              'apart from letter case (no spelling could address one of them)' % (op[1], op[2]), n)
+                    elif reserved:
+                        fail('reserved-attribute-accepted', 'define_class(%r, %r) accepted an attribute name python reserves '
+                             'for itself (it would shadow the instance machinery)' % (op[1], op[2]), n)
                     if not dup:
                         # (also when it was wrongly accepted: the oracle must follow the implementation to stay usable)
                         orc.classes[K] = {'kind': op[1], 'attrs': [tuple(a) for a in op[2]], 'ref': None}
@@ -659,7 +685,7 @@ def run_impl(case):
                     res = Sym('MetaModel')
                     if K in m.metaclasses and not dup:
                         fail('rejected-class-defined', 'define_class(%r) raised but left a class behind' % op[1], n)
-                    if not dup and not collide:
+                    if not dup and not collide and not reserved:
                         fail('class-definition-rejected', 'define_class(%r) raised although no such class exists' % op[1], n)
             elif nm == 'assoc':
                 ass = m.define_association('R1', op[1], [op[2]], True, True, '', op[3], [op[4]], False, True, '')
